@@ -38,6 +38,9 @@ def cases(seed, tier):
             c["int_init"] = False
             if i % 8 == 1:
                 c["force"] = sorted(set([x for x in (c["force"] or []) if x not in ("stacked", "divguard")] + ["intutil"]))
+        if i % 8 == 3:
+            # transitions of discrete states that return int8: later periods must be evaluated like the first one
+            c["force"] = sorted(set([x for x in (c["force"] or []) if x not in ("stacked", "divguard", "stoch", "stoch3")] + ["intutil", "narrownext", "nostoch"]))
         if i % 5 == 2:
             # states without any feasible choice (value -inf): both routes must report the same -inf
             c["force"] = sorted(set((c["force"] or []) + ["ninf"]))
